@@ -12,6 +12,7 @@ def proved(run):
                "A: _gen_nt freshness")
     resolves.c01_resolves(run)
     resolves.c01_boolean_conversion(run)
+    resolves.c01_mask_support(run)
     n0 = len(run.obligations)
     C20_proved.add_eos(run)
     for o in run.obligations[n0:]:
